@@ -115,6 +115,27 @@ pub trait Property: Sync + Send + 'static {
     fn max_shrink_iters(&self) -> u32 {
         2000
     }
+    /// Byte-level entry point shared with the libFuzzer target of this property (name of the
+    /// target, function). Saved fuzz inputs are replayed through it without the fuzzer.
+    #[allow(clippy::type_complexity)]
+    fn raw_target(&self) -> Option<(&'static str, fn(&[u8]) -> Outcome)> {
+        None
+    }
+}
+
+fn judge_raw(known_keys: &BTreeSet<String>, f: fn(&[u8]) -> Outcome, data: &[u8]) -> Result<(), String> {
+    let out = f(data);
+    let bad: Vec<String> = out
+        .discs
+        .iter()
+        .filter(|d| !matches!(d.key, Some(k) if known_keys.contains(k)))
+        .map(|d| d.msg.clone())
+        .collect();
+    if bad.is_empty() {
+        Ok(())
+    } else {
+        Err(bad.join(" | "))
+    }
 }
 
 pub struct KnownFindings {
@@ -303,8 +324,33 @@ pub fn run_property<P: Property>(prop: P, args: RunArgs) -> i32 {
 
     // ---- replay mode -------------------------------------------------------------------------
     if let Some(path) = &args.replay {
-        let text = std::fs::read_to_string(path).expect("cannot read replay file");
-        let rf: ReplayFile<P::Case> = serde_json::from_str(&text).expect("cannot parse replay file");
+        let bytes = std::fs::read(path).expect("cannot read replay file");
+        let parsed: Option<ReplayFile<P::Case>> = std::str::from_utf8(&bytes).ok().and_then(|t| serde_json::from_str(t).ok());
+        let rf = match parsed {
+            Some(rf) => rf,
+            None => {
+                // a saved input of the byte-level fuzz target
+                let (_, f) = prop.raw_target().expect("replay file is neither a JSON replay file nor does this property have a byte-level target");
+                let keys = known_keys.clone();
+                let res = spawn_big(move || {
+                    crate::sut::install_panic_hook();
+                    judge_raw(&keys, f, &bytes)
+                })
+                .join()
+                .unwrap();
+                return match res {
+                    Ok(()) => {
+                        say!("replay {}: property {} held", path, id);
+                        0
+                    }
+                    Err(m) => {
+                        say!("replay {}: {}", path, m);
+                        say!("VIOLATION property={} replay={}", id, path);
+                        1
+                    }
+                };
+            }
+        };
         let prop2 = prop.clone();
         let keys = known_keys.clone();
         let res = spawn_big(move || {
@@ -374,6 +420,39 @@ pub fn run_property<P: Property>(prop: P, args: RunArgs) -> i32 {
             say!("regression {}: {}", path.display(), m);
             first_violation = Some((path.display().to_string(), m));
             break;
+        }
+    }
+
+    // saved inputs of the byte-level fuzz target (seeds and regressions)
+    let mut raw_replayed = 0u64;
+    if first_violation.is_none() {
+        if let Some((name, f)) = prop.raw_target() {
+            let mut files: Vec<std::path::PathBuf> = vec![];
+            for sub in ["seeds", "regressions"] {
+                if let Ok(d) = std::fs::read_dir(root.join("fuzz").join(sub).join(name)) {
+                    files.extend(d.filter_map(|e| e.ok()).map(|e| e.path()).filter(|p| p.is_file()));
+                }
+            }
+            files.sort();
+            let keys = known_keys.clone();
+            let res: Vec<(std::path::PathBuf, Result<(), String>)> = spawn_big(move || {
+                crate::sut::install_panic_hook();
+                files.into_iter().map(|p| {
+                    let data = std::fs::read(&p).unwrap_or_default();
+                    let r = judge_raw(&keys, f, &data);
+                    (p, r)
+                }).collect()
+            })
+            .join()
+            .unwrap();
+            for (p, r) in res {
+                raw_replayed += 1;
+                if let Err(m) = r {
+                    say!("saved fuzz input {}: {}", p.display(), m);
+                    first_violation = Some((p.display().to_string(), m));
+                    break;
+                }
+            }
         }
     }
 
@@ -564,7 +643,7 @@ pub fn run_property<P: Property>(prop: P, args: RunArgs) -> i32 {
         &samples_stats,
         violations,
         wall,
-        serde_json::json!({"regressions_replayed": regressions_run, "workers": workers}),
+        serde_json::json!({"regressions_replayed": regressions_run, "saved_fuzz_inputs_replayed": raw_replayed, "workers": workers}),
     );
 
     for (p, k, text) in &kf.known {
